@@ -44,6 +44,7 @@ macro "conn_simp" : tactic => `(tactic|
       Conn.on_incoming_drops, Conn.on_heartbeat_arm, Conn.on_control_close_ignored, Conn.close_connection_arm,
       Conn.on_outgoing_session_frames_arm, Conn.allocate_session, Conn.send_close, Conn.send_close_checks_first,
       Conn.on_incoming_close, Conn.on_incoming_open, Conn.on_incoming_begin, Conn.on_incoming_end, Conn.forward_to_session_arm,
+      eofIsError, Conn.on_eof_arm, Conn.on_eof_arm_is_err,
       PFrame.isClose, Out.onWire, Out.isClose, Err.res])
 
 macro "conn_fin" "[" ts:Lean.Parser.Tactic.simpLemma,* "]" : tactic => `(tactic|
@@ -439,6 +440,26 @@ theorem local_close (s : St) (we : Bool) (hc : s.cs = .opened) (hp : s.phase = .
   cases we <;> cases dead <;>
     simp [step, step1, markDead, finishWait, Event.isPeer, stepRunning, settle, wire,
       Conn.on_control_close_ignored, Conn.send_close, Out.onWire]
+
+/-- **the end of the stream is not a clean close.**  While the endpoint still owes or expects a close —
+    connection open, close sent and the peer's not yet received, the peer's close received and ours not
+    yet written — the end of the incoming stream is an error for the event loop (regenerated from its
+    table); it is taken as the normal end only where nothing more is expected from the peer. -/
+theorem eof_is_an_error_until_closed :
+    eofIsError .opened = true ∧ eofIsError .closeSent = true ∧ eofIsError .closeReceived = true ∧
+    eofIsError .openSent = true ∧ eofIsError .openReceived = true ∧ eofIsError .ended = false := by decide
+
+/-- the application's view: after a local close on an opened connection, a stream that ends before the
+    peer's close makes the handle report an error, never a clean close -/
+theorem eof_after_local_close_reported (s : St) (hc : s.cs = .opened) (hp : s.phase = .running) (hr : s.res = none)
+    (hd : s.dead = false) :
+    (run s [.ctlClose false, .eof]).1.res ≠ none := by
+  obtain ⟨cs, phase, outCh, freeCh, endSent, endRecv, inCh, res, sessClosed, dead⟩ := s
+  simp only at hc hp hr hd
+  subst hc hp hr hd
+  simp [run, step, step1, markDead, finishWait, Event.isPeer, stepRunning, stepWait, settle, onError, closeConnection,
+    overwrite, eofIsError, Conn.on_eof_arm, Conn.on_eof_arm_is_err, Conn.on_control_close_ignored, Conn.send_close,
+    Conn.close_connection_arm, Conn.send_close_checks_first]
 
 -- non-vacuity: the client opens, a session begins, the peer sends an illegal second open, then closes
 example :
